@@ -238,6 +238,7 @@ class World:
             self.sched = _sched.Scheduler(on_exec=self.oracle.pre_op, on_enter=self._enter_task,
                                           on_leave=self._leave_task)
             self.srv.on_op = self._on_op
+            self.srv.after_op = self._after_op
             self.svc_sids = set()
 
             self.master = self.srv.client('master')
@@ -305,6 +306,7 @@ class World:
         finally:
             utils.sys_exit = self._sys_exit
             self.srv.on_op = None
+            self.srv.after_op = None
             if self.own_tmp:
                 shutil.rmtree(self.tmp, ignore_errors=True)
             else:
@@ -405,6 +407,22 @@ class World:
                     del table[path]
         host.keep_sid = proc.sid
         self._settle()
+
+    def _after_op(self, client, op, path):
+        """The delete of a clean-up was applied, its reply is lost: the handler sees a ConnectionLoss."""
+        if self.connloss_left <= 0:
+            return
+        import greenlet
+        import kazoo.exceptions
+        task = getattr(greenlet.getcurrent(), 'task', None)
+        if (task is not None and task.kind == 'req' and task.meta.get('ev') == 'deleted' and isinstance(task.owner, Proc) and
+                client is task.owner.zk and self.fault_rng.random() < 0.2):
+            self.connloss_left -= 1
+            self.connloss_injected += 1
+            self.count('delete_replies_lost_injected')
+            err = kazoo.exceptions.ConnectionLoss('injected: reply of delete %s lost' % path)
+            err.vf_injected = True
+            raise err
 
     def _on_op(self, client, op, path):
         inject = False
